@@ -16,6 +16,7 @@ long nondet_long(void);
 unsigned long nondet_ulong(void);
 char nondet_char(void);
 unsigned char nondet_uchar(void);
+short nondet_short(void);
 _Bool nondet_bool(void);
 void *nondet_ptr(void);
 
